@@ -1387,6 +1387,122 @@ def _part_re(sh, tier, res):
 
 
 # =========================================================================== protocol
+# =========================================================================== part tc: two first decoders (E3, cold state)
+# Two real threads are the first users of rich.ansi in the interpreter (stdout and stderr proxies written from two
+# threads): every execution runs in a fork of a zygote that imported rich but never decoded anything (vf/cold.py).
+# Scheduling points: every executed line of rich/ansi.py; all schedules with <= 1 preemption. Oracle: each
+# thread's Text, and a later single-threaded decode, carry exactly the attributes / colours the SGR codes say.
+TC_LINES = {"A": "\x1b[9;21;53mx\x1b[0my", "B": "\x1b[53;51;38;5;196mp\x1b[55mq"}
+TC_EXPECT = {"A": [("x", ("overline", "strike", "underline2")), ("y", ())],
+             "B": [("p", ("frame", "overline")), ("q", ("frame",))]}
+TC_SHARDS = 4
+TC_MAX_EXECS = 4000
+
+
+def _tc_setup():
+    import rich.ansi
+    import rich.text   # noqa: F401
+    from .. import sched
+    _console()
+    sched.install()
+    for co in sched._code_objects(rich.ansi):
+        sys.monitoring.set_local_events(sched.TOOL, co, sys.monitoring.events.LINE)
+    sched.SKIP_CODES = frozenset()
+
+
+def _tc_decode(line):
+    from rich.ansi import AnsiDecoder
+    try:
+        return ("ok", AnsiDecoder().decode_line(line))
+    except Exception as e:  # noqa
+        return ("crash", _crash_key(e, "ansi.py"), repr(e))
+
+
+def _tc_judge(tid, out):
+    if out[0] == "crash":
+        return ("exception/" + out[1].split("/", 1)[-1], "decode_line(%r) raised %s" % (TC_LINES[tid], out[2]))
+    cells = _rich_cells(out[1])
+    got = [(ch, tuple(sorted(vis[0]))) for ch, vis in cells]
+    if got != TC_EXPECT[tid]:
+        return ("attributes", "decode_line(%r) gives %r, the SGR codes say %r" % (TC_LINES[tid], got, TC_EXPECT[tid]))
+    return None
+
+
+def _tc_make(s):
+    out = {}
+
+    def runner(tid):
+        def run():
+            out[tid] = _tc_decode(TC_LINES[tid])
+        return run
+
+    def observe():
+        return {"got": out, "again": {t: _tc_decode(TC_LINES[t]) for t in "AB"}}
+    return {"A": runner("A"), "B": runner("B")}, observe
+
+
+def _tc_child(prefix):
+    from .. import sched, cold
+    s, obs = sched.run_once(_tc_make, prefix, "line", 0)
+    vio = []
+    if s.problem:
+        vio.append(("threads/%s" % s.problem.split(":")[0], s.problem))
+    for tid, e in s.errors:
+        vio.append(("threads/exception/%s" % type(e).__name__, "thread %s raised %r" % (tid, e)))
+    for tid in "AB":
+        got = obs["got"].get(tid)
+        if got is None:
+            if not s.problem:
+                vio.append(("threads/no-result", "thread %s did not finish" % tid))
+        else:
+            err = _tc_judge(tid, got)
+            if err:
+                vio.append(("threads/decoder/" + err[0], "thread %s: %s" % (tid, err[1])))
+        err = _tc_judge(tid, obs["again"][tid])
+        if err:
+            vio.append(("threads/decoder/memoised/" + err[0], "decoded again by one thread after both finished: %s" % err[1]))
+    dev = s.deviations_before(len(s.choices))
+    return cold.record_of(s, sig=("tc", min(dev, 3), bool(vio)), vio=vio)
+
+
+def _part_tc(sh, tier, res):
+    from .. import cold
+    zy = cold.Zygote("vf.checks.c19", "_tc_setup")
+    bad = [0]
+
+    def on_exec(rec):
+        res.evaluations += 4
+        res.sig(rec["sig"], nontrivial=rec["sig"][1] > 0)
+        if rec["vio"]:
+            bad[0] += 1
+            ch = list(rec["choices"])
+            while ch and ch[-1] == 0:
+                ch.pop()
+            for key, detail in rec["vio"]:
+                res.violate(key, {"part": "tc", "choices": ch}, detail)
+        return bad[0] < 8
+    try:
+        st = cold.explore_cold(lambda prefix: zy.call("_tc_child", prefix), 1, on_exec,
+                               stop=deadline_passed, max_execs=TC_MAX_EXECS, shard=(sh["i"], sh["n"]))
+    finally:
+        zy.close()
+    res.count("tc_schedules", st["executions"])
+    res.count("transitions", st["executions"])
+    if not st["complete"] and not bad[0]:
+        res.capped = True
+
+
+def _replay_tc(case, res):
+    from .. import cold
+    zy = cold.Zygote("vf.checks.c19", "_tc_setup")
+    try:
+        rec = zy.call("_tc_child", list(case["choices"]))
+    finally:
+        zy.close()
+    for key, detail in rec["vio"]:
+        res.violate(key, case, detail)
+
+
 def plan(tier, seed):
     shards = []
     n1 = {"quick": {"R1": 4, "R2": 12, "RB": 6, "R3": 6}, "thorough": {"R1": 8, "R2": 32, "RB": 16, "R3": 32}}[tier]
@@ -1399,6 +1515,7 @@ def plan(tier, seed):
     for sub, n in nsg.items():
         shards += [{"part": "sg", "sub": sub, "i": i, "n": n} for i in range(n)]
     shards += [{"part": "re", "i": i, "n": 2} for i in range(2)]
+    shards += [{"part": "tc", "i": i, "n": TC_SHARDS} for i in range(TC_SHARDS)]
     for spec in stream_sets(tier):
         nstreams = sum(1 for _ in streams(spec[2], spec[3], spec[4]))
         n = min(nstreams, 48 if tier == "quick" else 160)
@@ -1416,6 +1533,8 @@ def run_shard(sh, tier, seed):
         _part_sg(sh, tier, res)
     elif sh["part"] == "re":
         _part_re(sh, tier, res)
+    elif sh["part"] == "tc":
+        _part_tc(sh, tier, res)
     else:
         _part_fp(sh, tier, res)
     return res
@@ -1492,6 +1611,8 @@ def replay(case):
         check_foreign(case["stream"], res)
     elif case.get("part") == "re":
         check_reentrant(case, res)
+    elif case.get("part") == "tc":
+        _replay_tc(case, res)
     elif case.get("part") == "sg":
         check_sgr(tuple(case["plists"]), case["layout"], case["driver"], res)
     else:
